@@ -347,9 +347,22 @@ func VsymC06Validators() {
 		opts.RevocationClient = cl
 	}
 	kitDefaultValidators = nil
-	v, err := NewVerifierWithOptions(&kitStore{}, opts)
+	var v *verifier
+	var err error
+	if vr.Choice("constructor", 2) == 1 {
+		// the deprecated constructor takes the document and the plugin manager as arguments
+		doc := opts.OCITrustPolicy
+		opts.OCITrustPolicy = nil
+		var nv notation.Verifier
+		nv, err = NewWithOptions(doc, &kitStore{}, nil, opts)
+		if err == nil {
+			v, _ = nv.(*verifier)
+		}
+	} else {
+		v, err = NewVerifierWithOptions(&kitStore{}, opts)
+	}
 	vr.Assert(err == nil && v != nil, "harness: verifier")
-	if err != nil {
+	if err != nil || v == nil {
 		return
 	}
 	vr.Assert(v.revocationTimestampingValidator != nil, "a verifier always has a timestamping revocation validator")
